@@ -68,6 +68,23 @@ fn main() {
             _ => i += 1,
         }
     }
+    if args[1] == "probe-breadth" {
+        // C05 probe, run by the driver in a subprocess under a memory and time limit: a Compute whose breadth is far beyond what the
+        // gas limit can pay for must still return (a typed error or success) instead of exhausting memory / time.
+        use essential_asm as asm;
+        use essential_vm::{Access, GasLimit, Vm};
+        let ops: Vec<asm::Op> = vec![asm::Stack::Push(1i64 << 40).into(), asm::Compute::Compute.into(), asm::Compute::ComputeEnd.into()];
+        let sol = essential_types::solution::Solution {
+            predicate_to_solve: essential_types::PredicateAddress { contract: essential_types::ContentAddress([0; 32]), predicate: essential_types::ContentAddress([0; 32]) },
+            predicate_data: vec![],
+            state_mutations: vec![],
+        };
+        let st = (refsem::PreState::default(), refsem::PreState::default());
+        let mut vm = Vm::default();
+        let r = vm.exec_ops(&ops, Access::new(std::sync::Arc::new(vec![sol]), 0), &st, &|_: &asm::Op| 1u64, GasLimit { per_yield: 4096, total: 1000 });
+        println!("{{\"probe\":\"huge_compute_breadth\",\"returned\":true,\"ok\":{}}}", r.is_ok());
+        std::process::exit(0);
+    }
     let suite: &'static str = match args[1].as_str() {
         "hash" => "hash",
         "graph" => "graph",
